@@ -15,6 +15,19 @@ import GcArena.Proofs.ProtRun
 
   `rep_run_from`: along every history, every coupled pointer-level state represents the lists of
   the model (`Rep`) and is in the sweep mode iff the model is in the sweep phase.
+
+  Two remarks on fidelity.
+  * Placing `sweep_prev := None` at `toSleep` hides nothing for the driver loop itself:
+    `doCollection_never_stops_at_e` / `selfdriven_run_never_stops_at_e` show that a self-driven
+    `do_collection` never returns with `'e'` (the end-of-list `sweep_one`) as the newest step — the
+    `'Z'` follows in the same iteration — so between the two statements no other pointer statement
+    can run.  Only an oracle that cuts a logged call between `'e'` and `'Z'` could separate them, and
+    the harness logs whole calls.
+  * `PList.sweepOne` (Model/PtrList.lean) keeps an object — sets `sweep_prev := Some(sweep)` — in
+    every arm where `remove` is false; `Context::sweep_one` has a `Gray` arm (`debug_assert!(false)`)
+    that does not touch `sweep_prev`.  That arm is unreachable in every state satisfying the
+    invariant (no gray object exists outside the mark phase: `CInv.grayQ` + `qMark`, used in
+    `sweepOne_refines`), so the two agree on all reachable states.
 -/
 namespace GcArena
 
@@ -277,5 +290,216 @@ theorem prun_exists (ops : List Op) : ∀ (a : Arena) (p : PList), Inv a → (a.
 
 theorem repC_init (n : Nat) : RepC PList.empty (Arena.new n).ctx :=
   ⟨Rep.empty, ⟨fun h => (by cases h), fun h => (by cases h)⟩⟩
+
+/-! ### The self-driven loop never stops between `'e'` and `'Z'` -/
+
+theorem markOne_head (c : Ctx) (root : List Slot) (f : Option Nat) :
+    ∃ ch, ch ≠ 'e' ∧ (c.markOne root f).1.steps = ch :: c.steps := by
+  unfold Ctx.markOne
+  split
+  · exact ⟨'g', by decide, by rw [markObj_steps]; rfl⟩
+  · split
+    · exact ⟨'g', by decide, by rw [markObj_steps]; rfl⟩
+    · split
+      · refine ⟨'r', by decide, ?_⟩
+        split
+        · show ((c.step 'r').traceSlots root).steps = _
+          rw [traceSlots_steps]; rfl
+        · show ((c.step 'r').traceSlots _).steps = _
+          rw [traceSlots_steps]; rfl
+      · exact ⟨'b', by decide, rfl⟩
+
+theorem sweepOne_head_x {c : Ctx} {i : Nat} {r : List Nat} (hr : c.rest = i :: r) :
+    c.sweepOne.1.steps = 'x' :: c.steps := by
+  unfold Ctx.sweepOne
+  rw [hr]
+  simp only
+  repeat' split
+  all_goals simp [Ctx.step]
+
+private theorem head_cons_ne {ch : Char} {l : List Char} (h : ch ≠ 'e') : (ch :: l).head? ≠ some 'e' := by
+  simp [h]
+
+/-- Whatever it is asked to do, the driver loop does not return right after the `sweep_one` call
+    that found the end of the list: if the newest step was not `'e'` before, it is not afterwards. -/
+theorem collectLoop_never_stops_at_e {root ru stop fault} (fuel : Nat) :
+    ∀ (c : Ctx) (hs : Bool) (k : Nat), c.steps.head? ≠ some 'e' →
+      (Ctx.collectLoop root ru stop fault fuel c hs k).1.steps.head? ≠ some 'e' := by
+  induction fuel with
+  | zero => intro c hs k h; exact h
+  | succ fuel ih =>
+    intro c hs k h
+    unfold Ctx.collectLoop
+    cases hp : c.phase with
+    | drop => simpa using h
+    | sleep =>
+      simp only
+      have h1 : (c.switch .mark).steps.head? ≠ some 'e' := by simp [Ctx.switch, Ctx.step]
+      split
+      · exact h1
+      · exact ih _ _ _ h1
+    | mark =>
+      simp only
+      obtain ⟨ch, hch, e⟩ := markOne_head c root (faultAt fault k)
+      have h1 : (c.markOne root (faultAt fault k)).1.steps.head? ≠ some 'e' := by rw [e]; exact head_cons_ne hch
+      generalize (if c.grayRemaining = true then k + 1 else k) = k'
+      generalize c.markOne root (faultAt fault k) = r at h1
+      obtain ⟨c1, flow⟩ := r
+      simp only at h1 ⊢
+      cases flow with
+      | unwind => exact h1
+      | «continue» =>
+        simp only
+        split
+        · exact h1
+        · exact ih _ _ _ h1
+      | «break» =>
+        simp only
+        split
+        · exact h1
+        · have h2 : c1.enterSweep.steps.head? ≠ some 'e' := by simp [Ctx.enterSweep, Ctx.switch, Ctx.step]
+          split
+          · exact h2
+          · exact ih _ _ _ h2
+    | sweep =>
+      simp only
+      split
+      · exact h
+      · cases hr : c.rest with
+        | nil =>
+          rw [sweepOne_end hr]
+          simp only
+          have h2 : ((c.step 'e').enterSleep hs).steps.head? ≠ some 'e' := by
+            simp [Ctx.enterSleep, Ctx.switch, Ctx.step]
+          split
+          · exact h2
+          · split
+            · split
+              · exact h2
+              · simpa using h2
+            · split
+              · exact h2
+              · exact ih _ _ _ h2
+        | cons i rest' =>
+          have hne : c.rest ≠ [] := by rw [hr]; simp
+          have hfl := sweepOne_flow hne
+          have h1 : c.sweepOne.1.steps.head? ≠ some 'e' := by
+            rw [sweepOne_head_x hr]; exact head_cons_ne (by decide)
+          rw [show c.sweepOne = (c.sweepOne.1, c.sweepOne.2) from rfl, hfl]
+          simp only
+          split
+          · exact h1
+          · exact ih _ _ _ h1
+
+theorem doCollection_never_stops_at_e (c : Ctx) (root : List Slot) (ru : RunUntil) (stop : Stop)
+    (fault : TraceFault) (h : c.steps.head? ≠ some 'e') :
+    (c.doCollection root ru stop fault).1.steps.head? ≠ some 'e' := by
+  unfold Ctx.doCollection
+  split
+  · exact h
+  · exact collectLoop_never_stops_at_e _ _ _ _ h
+
+theorem dropOne_steps (c : Ctx) (i : Nat) : (c.dropOne i).steps = c.steps := by
+  unfold Ctx.dropOne
+  split
+  · simp
+  · simp only; split <;> simp
+
+theorem dropAll_steps (c : Ctx) : c.dropAll.steps = c.steps := by
+  unfold Ctx.dropAll
+  simp only
+  have : ∀ (l : List Nat) (c0 : Ctx), (l.foldl Ctx.dropOne c0).steps = c0.steps := by
+    intro l
+    induction l with
+    | nil => intro c0; rfl
+    | cons i l ih => intro c0; simp only [List.foldl_cons]; rw [ih, dropOne_steps]
+  rw [this]
+
+/-- One API op whose collection call (if it is one) is self-driven keeps "the newest step is not
+    `'e'`". -/
+theorem step_never_stops_at_e {a : Arena} (hinv : a.alive = true → Inv a) (op : Op)
+    (hself : ∀ m k f o, op = .collect m k f o → o = none)
+    (h : a.ctx.steps.head? ≠ some 'e') : (a.step op).1.ctx.steps.head? ≠ some 'e' := by
+  cases hal : a.alive with
+  | false => rw [step_dead hal]; exact h
+  | true =>
+    have hi := hinv hal
+    cases hop : op.isMutator with
+    | true => rw [(step_mutFacts hi op hop).steps]; exact h
+    | false =>
+      have hnot : (!a.alive) = false := by rw [hal]; rfl
+      unfold Arena.step
+      rw [hnot]
+      simp only [Bool.false_eq_true, if_false]
+      cases op with
+      | dropArena =>
+        simp only [Arena.stepBody]
+        split
+        · exact h
+        · show a.ctx.dropAll.steps.head? ≠ some 'e'
+          rw [dropAll_steps]; exact h
+      | collect m k f o =>
+        have ho : o = none := hself m k f o rfl
+        subst ho
+        simp only [Arena.stepBody]
+        split
+        · exact h
+        · simp only [Arena.splitOracle, Arena.runCollector]
+          have h1 := doCollection_never_stops_at_e a.ctx a.root (Arena.methodArgs m).1 (Arena.methodArgs m).2 f h
+          have mk : ∀ (b : Arena) (k : Cont), b.ctx.steps.head? ≠ some 'e' →
+              (b.marked? k none).1.ctx.steps.head? ≠ some 'e' := by
+            intro b k hb
+            unfold Arena.marked?
+            split
+            · cases k with
+              | drop => exact hb
+              | finalize => exact hb
+              | sweep =>
+                simp only [Arena.startSweeping, Arena.runCollector]
+                split
+                · exact hb
+                · rename_i c' hc'
+                  split at hc'
+                  · cases hc'; exact doCollection_never_stops_at_e _ _ _ _ _ hb
+                  · cases hc'
+            · exact hb
+          split
+          · exact h1
+          · split
+            · exact h1
+            · cases m with
+              | markDebt => exact mk _ k h1
+              | finishMarking => exact mk _ k h1
+              | collectDebt => exact h1
+              | cycleDebt => exact h1
+              | finishCycle => exact h1
+      | _ => simp [Op.isMutator] at hop
+
+/-- **In a history whose collection calls are all self-driven (`Context::do_collection` as written),
+    no state at an operation boundary has the end-of-list `sweep_one` as its newest step**: the
+    `Sweep → Sleep` switch always follows within the same call.  Hence no allocation, no callback and
+    no other call can ever run between the pointer statement `sweep_prev = None` and that switch, and
+    taking the two together (`PList.micro … (.toSleep _)`) loses nothing. -/
+theorem selfdriven_run_never_stops_at_e (n : Nat) (ops : List Op)
+    (hself : ∀ op, op ∈ ops → ∀ m k f o, op = .collect m k f o → o = none) :
+    ((Arena.new n).run ops).ctx.steps.head? ≠ some 'e' := by
+  have key : ∀ (ops : List Op) (a : Arena), (a.alive = true → Inv a) →
+      (∀ op, op ∈ ops → ∀ m k f o, op = .collect m k f o → o = none) →
+      a.ctx.steps.head? ≠ some 'e' → (a.run ops).ctx.steps.head? ≠ some 'e' := by
+    intro ops
+    induction ops with
+    | nil => intro a _ _ h; exact h
+    | cons op ops ih =>
+      intro a hi hs h
+      simp only [Arena.run]
+      refine ih _ ?_ (fun o ho => hs o (List.mem_cons_of_mem _ ho))
+        (step_never_stops_at_e hi op (hs op (by simp)) h)
+      intro hal1
+      have hal : a.alive = true := by
+        cases hd : a.alive with
+        | true => rfl
+        | false => rw [step_dead hd] at hal1; rw [hd] at hal1; cases hal1
+      exact inv_step (hi hal) op hal1
+  exact key ops _ (fun _ => inv_init n) hself (by simp [Arena.new, Ctx.new])
 
 end GcArena
